@@ -195,16 +195,33 @@ class FileProxy:
         return getattr(self._f, name)
 
 
+def _attributes(obj):
+    """(name, value) of every instance attribute, whether it lives in __dict__ or in __slots__."""
+    out = {}
+    d = getattr(obj, "__dict__", None)
+    if isinstance(d, dict):
+        out.update(d)
+    for klass in type(obj).__mro__:
+        slots = getattr(klass, "__slots__", ())
+        if isinstance(slots, str):
+            slots = (slots,)
+        for n in slots:
+            if n in ("__dict__", "__weakref__") or n in out:
+                continue
+            try:
+                out[n] = getattr(obj, n)
+            except AttributeError:
+                pass
+    return out
+
+
 def wrap_open_handles(hub, storage):
     """The file objects an already open storage holds predate the proxies: rewrap them.  They are found by what they
     are (open file objects among the storage's attributes), not by attribute name.  Returns an undo list."""
     import io
 
     undo = []
-    try:
-        attrs = dict(vars(storage))
-    except TypeError:
-        attrs = {}
+    attrs = _attributes(storage)
     for name, val in attrs.items():
         if isinstance(val, FileProxy):
             continue
@@ -219,11 +236,7 @@ def wrap_open_handles(hub, storage):
 
 def unwrap_handles(storage, undo=None):
     """Put the raw file objects back (whatever attribute they sit in now)."""
-    try:
-        attrs = dict(vars(storage))
-    except TypeError:
-        return
-    for name, val in attrs.items():
+    for name, val in _attributes(storage).items():
         if isinstance(val, FileProxy):
             setattr(storage, name, val._f)
 
